@@ -1158,12 +1158,6 @@ func (n *network) startAcceptor(a gen.AcceptorOptions) (*acceptor, error) {
 }
 
 func (n *network) accept(a *acceptor) {
-	hopts := gen.HandshakeOptions{
-		Cookie:         a.cookie,
-		Flags:          a.flags,
-		MaxMessageSize: a.max_message_size,
-		CertManager:    a.cert_manager,
-	}
 	for {
 		c, err := a.l.Accept()
 		if err != nil {
@@ -1178,6 +1172,9 @@ func (n *network) accept(a *acceptor) {
 			n.node.Log().Trace("accepted new TCP-connection from %s", c.RemoteAddr().String())
 		}
 
+		// the acceptor's options as they are now (Acceptor.SetCookie,
+		// SetNetworkFlags and SetMaxMessageSize take effect for this connection)
+		hopts := a.handshakeOptions()
 		if hopts.Cookie == "" {
 			hopts.Cookie = n.cookie
 		}
